@@ -42,6 +42,8 @@ pub const PROBES: &[Probe] = &[
     // options whose builtin-feature values come from git's colour configuration when it is there
     // (diff-so-fancy: color.diff.meta, diff-highlight / raw: color.diff.commit ...): the values in the
     // table are read from the binary with and without those keys
+    // a derived default: with nothing set, --light / --dark decide the theme; any source that sets it wins
+    Probe { name: "syntax-theme", ty: PType::Enum(&["Nord", "Dracula", "GitHub", "zenburn", "1337", "OneHalfLight", "TwoDark"]), builtin: &[], extra_args: &[] },
     Probe { name: "file-style", ty: PType::Enum(STYLE_WORDS), builtin: &[("diff-so-fancy", ""), ("raw", ""), ("diff-highlight", "")], extra_args: &[] },
     Probe { name: "commit-style", ty: PType::Enum(STYLE_WORDS), builtin: &[("diff-highlight", ""), ("raw", ""), ("diff-so-fancy", "")], extra_args: &[] },
 ];
@@ -60,6 +62,24 @@ pub fn calibration_markers(probe: &Probe) -> (String, String) {
         PType::Int => two("37", "41"),
         PType::Bool => two("true", "false"),
         PType::Enum(words) => two(words[0], words[1 % words.len()]),
+    }
+}
+
+/// Key of the calibrated default of a placement's probe (the default may depend on `extra_cli`).
+pub fn default_key(p: &Placement) -> String {
+    if p.extra_cli.is_empty() {
+        p.probe.clone()
+    } else {
+        format!("{}|{}", p.probe, p.extra_cli.join(" "))
+    }
+}
+
+/// The variants of `extra_cli` that exist for a probe.
+pub fn extra_cli_variants(probe: &str) -> Vec<Vec<String>> {
+    if probe == "syntax-theme" {
+        vec![vec![], vec!["--light".to_string()], vec!["--dark".to_string()]]
+    } else {
+        vec![vec![]]
     }
 }
 
@@ -214,6 +234,10 @@ pub struct Placement {
     /// some builtin features take the values they set
     #[serde(default)]
     pub git_colors: bool,
+    /// further command-line arguments that do not set the probe themselves but decide what its
+    /// built-in default is (`--light` / `--dark` for syntax-theme)
+    #[serde(default)]
+    pub extra_cli: Vec<String>,
     /// [delta "<name>"] sections
     pub custom: BTreeMap<String, Section>,
     pub cli_features: Option<Vec<String>>,
@@ -542,6 +566,9 @@ pub fn encode(p: &Placement, config_path: Option<&str>) -> Encoded {
     }
     for b in &p.cli_flags {
         args.push(format!("--{}", b));
+    }
+    for a in &p.extra_cli {
+        args.push(a.clone());
     }
     for a in probe.extra_args {
         if !args.iter().any(|x| x == a) {
@@ -976,6 +1003,12 @@ impl<'a> Builder<'a> {
         self.p.sources.push(kind.to_string());
         if reads_git_colors(self.probe.name) && self.p.sources.len() == 1 {
             self.p.git_colors = rng.chance(1, 2);
+        }
+        if self.p.sources.len() == 1 {
+            let vs = extra_cli_variants(self.probe.name);
+            if vs.len() > 1 {
+                self.p.extra_cli = rng.pick(&vs).clone();
+            }
         }
         true
     }
